@@ -12,6 +12,7 @@ PAGES = [
     ('<p>café naïve</p>'.encode('latin-1'), '<p>café changed</p>'.encode('latin-1')),
     (b'', b'<p>now something</p>'),
     (b'<p>same</p>', b'<p>same</p>'),
+    (b'<p>quoted \x93old text\x94 \x80 5 caf\xe9 \x96 dash</p>', b'<p>quoted \x93new text\x94 \x80 6 caf\xe9 \x97 dash</p>'),
     # bodies that start with a byte-order mark: the declared charset still decides how they are decoded
     (b'\xef\xbb\xbf' + '<p>caf\u00e9 old \u0142\u00f3d\u017a</p>'.encode('utf-8'), b'\xef\xbb\xbf' + '<p>caf\u00e9 new \u0142\u00f3d\u017a</p>'.encode('utf-8')),
     ('\ufeff<p>old text</p>'.encode('utf-16-le'), '\ufeff<p>new text here</p>'.encode('utf-16-le')),
@@ -20,7 +21,7 @@ PAGES = [
      '<meta http-equiv="Content-Type" content="text/html; charset=iso-8859-5"><p>\u043f\u0440\u0438\u0432\u0435\u0442 new</p>'.encode('koi8-r')),
 ]
 CHARSETS = ['text/html; charset=koi8-r', 'text/html; charset=utf-8', 'text/html; charset=iso-8859-1', 'text/html', 'TEXT/HTML; Charset=UTF-8',
-            'application/xhtml+xml; charset=utf-8', 'text/html; charset=koi8-r; boundary=x', 'text/html;charset=iso-8859-2 ;q=0.9', 'text/html; level=1; charset=koi8-r', 'text/html; charset=utf-16le']
+            'application/xhtml+xml; charset=utf-8', 'text/html; charset=koi8-r; boundary=x', 'text/html;charset=iso-8859-2 ;q=0.9', 'text/html; level=1; charset=koi8-r', 'text/html; charset=utf-16le', 'text/html; charset=iso-8559-1', 'text/plain; charset=iso-8559-1']
 OPTIONS = {
     'html_token': [[], [('include', 'all')], [('include', 'insertions')], [('include', 'deletions')], [('include', 'combined')],
                    [('content_type_options', 'nocheck')], [('content_type_options', 'ignore')], [('url_rules', 'wayback')],
